@@ -264,6 +264,40 @@ pub fn observe(analysis: &EmmyLuaAnalysis, root: &Path, opts: &ObserveOpts) -> O
                     }
                 }
             }
+            // ---- table literals: inferred type and the members registered under the literal itself
+            // (fields of a literal annotated as a class / enum are re-homed to the type, the
+            // literal's own member list must follow every edit of its file)
+            if let Some(model) = analysis.compilation.get_semantic_model(*fid) {
+                for te in model.get_root().descendants::<emmylua_parser::LuaTableExpr>() {
+                    let range = te.get_range();
+                    let start = u32::from(range.start());
+                    if let Ok(t) = model.infer_expr(emmylua_parser::LuaExpr::TableExpr(te.clone())) {
+                        lines.push(format!("texpr {rel}@{start} :: {}", render(db, &t)));
+                        if let Some(infos) = model.get_member_infos(&t) {
+                            let mut ms: Vec<String> = infos
+                                .iter()
+                                .map(|i| format!("tmember {rel}@{start}.{} :: {}", i.key.to_path(), render(db, &i.typ)))
+                                .collect();
+                            ms.sort();
+                            lines.extend(ms);
+                        }
+                    }
+                    let owner = LuaMemberOwner::Element(emmylua_code_analysis::InFiled::new(*fid, range));
+                    if let Some(members) = db.get_member_index().get_members(&owner) {
+                        let mut ms: Vec<String> = members
+                            .iter()
+                            .map(|m| {
+                                if db.get_vfs().get_file_content(&m.get_file_id()).is_none() {
+                                    dangling.push(format!("table member .{} in {}", m.get_key().to_path(), rel_of(db, root, m.get_file_id())));
+                                }
+                                format!("elmember {rel}@{start}.{} :: at {}:{}", m.get_key().to_path(), rel_of(db, root, m.get_file_id()), u32::from(m.get_range().start()))
+                            })
+                            .collect();
+                        ms.sort();
+                        lines.extend(ms);
+                    }
+                }
+            }
             // ---- references of every local declaration of the file
             if let Some(map) = db.get_reference_index().get_decl_references_map(fid) {
                 let mut rs: Vec<String> = map
@@ -590,19 +624,31 @@ pub fn category(line: &str) -> &str {
 /// Compare two observations; returns (category, only-in-a, only-in-b) of the first few differing
 /// lines per category.
 pub fn diff(a: &[String], b: &[String]) -> BTreeMap<String, (Vec<String>, Vec<String>)> {
-    let sa: std::collections::BTreeSet<&String> = a.iter().collect();
-    let sb: std::collections::BTreeSet<&String> = b.iter().collect();
+    // multiset comparison: the k-th repetition of a line is its own element ("... #2"), so an
+    // entry that a query lists twice differs from one listed once
+    fn tagged(v: &[String]) -> std::collections::BTreeSet<String> {
+        let mut seen: BTreeMap<&String, usize> = BTreeMap::new();
+        let mut out = std::collections::BTreeSet::new();
+        for l in v {
+            let n = seen.entry(l).or_insert(0);
+            *n += 1;
+            out.insert(if *n == 1 { l.clone() } else { format!("{l} #{n}") });
+        }
+        out
+    }
+    let sa = tagged(a);
+    let sb = tagged(b);
     let mut out: BTreeMap<String, (Vec<String>, Vec<String>)> = BTreeMap::new();
     for l in sa.difference(&sb) {
         let e = out.entry(category(l).to_string()).or_default();
         if e.0.len() < 4 {
-            e.0.push((*l).clone());
+            e.0.push(l.clone());
         }
     }
     for l in sb.difference(&sa) {
         let e = out.entry(category(l).to_string()).or_default();
         if e.1.len() < 4 {
-            e.1.push((*l).clone());
+            e.1.push(l.clone());
         }
     }
     out
